@@ -338,6 +338,52 @@ func subjects() []subject {
 
 			return []string{buf.String()}, nil
 		}},
+		{name: "packetdump-sender-default-filter", run: func(hist []*pkt, _ []uint16, reuse bool) ([]string, error) {
+			buf := &syncBuffer{}
+			f, err := packetdump.NewSenderInterceptor(packetdump.RTPWriter(buf), packetdump.RTCPWriter(&syncBuffer{}),
+				packetdump.RTPFilter(slowPayloadFilter)) // the built-in format, which prints no payload, with a filter that looks at it
+			if err != nil {
+				return nil, err
+			}
+			ic, err := f.NewInterceptor("")
+			if err != nil {
+				return nil, err
+			}
+			w := ic.BindLocalStream(&interceptor.StreamInfo{SSRC: mediaSSRC}, &kit.RTPSink{})
+			c := &caller{reuse: reuse}
+			for _, p := range hist {
+				if err := c.write(w, p); err != nil {
+					return nil, err
+				}
+			}
+			_ = ic.Close()
+
+			return []string{buf.String()}, nil
+		}},
+		{name: "packetdump-receiver-default-filter", run: func(hist []*pkt, _ []uint16, reuse bool) ([]string, error) {
+			buf := &syncBuffer{}
+			f, err := packetdump.NewReceiverInterceptor(packetdump.RTPWriter(buf), packetdump.RTCPWriter(&syncBuffer{}),
+				packetdump.RTPFilter(slowPayloadFilter)) // the built-in format, which prints no payload, with a filter that looks at it
+			if err != nil {
+				return nil, err
+			}
+			ic, err := f.NewInterceptor("")
+			if err != nil {
+				return nil, err
+			}
+			src := &kit.ByteSource{}
+			r := ic.BindRemoteStream(&interceptor.StreamInfo{SSRC: mediaSSRC}, src)
+			c := &caller{reuse: reuse}
+			for _, p := range hist {
+				src.Push(p.raw())
+				if _, err := c.read(r); err != nil {
+					return nil, err
+				}
+			}
+			_ = ic.Close()
+
+			return []string{buf.String()}, nil
+		}},
 		{name: "stats", run: func(hist []*pkt, _ []uint16, reuse bool) ([]string, error) {
 			fixed := time.Date(2024, 1, 1, 0, 0, 0, 0, time.UTC)
 			f, _ := stats.NewInterceptor(stats.SetNowFunc(func() time.Time { return fixed }))
@@ -525,6 +571,15 @@ func slowTextFormatter(p *rtp.Packet, _ interceptor.Attributes) string {
 	}
 
 	return fmt.Sprintf("%d %d %v %x %x\n", p.SequenceNumber, p.Timestamp, p.CSRC, p.Header.GetExtensionIDs(), p.Payload)
+}
+
+// slowPayloadFilter is an application's "key frames only" filter: it decides on payload bytes, some time after it was called.
+func slowPayloadFilter(p *rtp.Packet) bool {
+	for i := 0; i < 20; i++ {
+		runtime.Gosched()
+	}
+
+	return len(p.Payload) == 0 || p.Payload[0]%5 != 0
 }
 
 func TestCallerBuffersNotRetained(t *testing.T) {
